@@ -54,7 +54,11 @@ func checkPosaEpochWindow(c *core.Ctx, sync *ssa.Function, gpCall func(v ssa.Val
 				continue
 			}
 			cmp, isB := iff.Cond.(*ssa.BinOp)
-			if !isB || (cmp.Op != token.LEQ && cmp.Op != token.LSS) {
+			// `d <= n/2` selects the previous set on its true edge; the complementary spelling `d > n/2` on its false edge
+			selIdx := 0
+			if isB && (cmp.Op == token.GTR || cmp.Op == token.GEQ) {
+				selIdx = 1
+			} else if !isB || (cmp.Op != token.LEQ && cmp.Op != token.LSS) {
 				continue
 			}
 			q, isQ := ir.Strip(cmp.Y).(*ssa.BinOp)
@@ -77,7 +81,7 @@ func checkPosaEpochWindow(c *core.Ctx, sync *ssa.Function, gpCall func(v ssa.Val
 				continue
 			}
 			// taken on the true edge towards the selecting block
-			t := a.Succs[0]
+			t := a.Succs[selIdx]
 			if !(t == pred || t.Dominates(pred)) {
 				continue
 			}
